@@ -658,7 +658,16 @@ pub fn describe(unblinded: &Transaction, utxos: &[TxOut], spent: &[TxOutSecrets]
 }
 
 /// the C04 statement on one marked transaction
-pub fn c04_case(rng: &mut R, out: &mut Out, secp: &Secp256k1<All>, base: &Base, which: &[usize]) -> Option<Transaction> {
+/// what `c04_case` saw: the blinded transaction if it verified, and whether every marked output
+/// unblinded with its receiver key to the reported secrets
+pub struct CaseResult {
+    pub blinded: Option<Transaction>,
+    pub verified: bool,
+    pub all_unblind: bool,
+}
+
+pub fn c04_case(rng: &mut R, out: &mut Out, secp: &Secp256k1<All>, base: &Base, which: &[usize]) -> CaseResult {
+    let mut all_unblind = true;
     let mut m = mark(rng, secp, base, which);
     // a blinding key on the fee output must change nothing: fee outputs are never blinded
     if rng.gen_bool(0.3) {
@@ -683,7 +692,7 @@ pub fn c04_case(rng: &mut R, out: &mut Out, secp: &Secp256k1<All>, base: &Base, 
             } else {
                 out.s("blind_succeeds", false, || format!("{} -> {}", det(), e));
             }
-            None
+            CaseResult { blinded: None, verified: false, all_unblind: false }
         }
         Ok(items) => {
             out.count("blind.ok");
@@ -717,6 +726,7 @@ pub fn c04_case(rng: &mut R, out: &mut Out, secp: &Secp256k1<All>, base: &Base, 
                         out.s("proofs_present", o.witness.rangeproof.is_some() && o.witness.surjection_proof.is_some(), &det);
                         let ub = std::panic::catch_unwind(std::panic::AssertUnwindSafe(|| o.unblind(secp, m.rsk[&i])));
                         let good = match &ub { Ok(Ok(s)) => *s == TxOutSecrets::new(a, *abf, v, *vbf), _ => false };
+                        all_unblind &= good;
                         out.s("unblind_returns_reported_secrets", good, || format!("output {} {}", i, det()));
                         // a different key does not unblind to the same secrets
                         let wrong = gen::seckey(rng);
@@ -725,7 +735,151 @@ pub fn c04_case(rng: &mut R, out: &mut Out, secp: &Secp256k1<All>, base: &Base, 
                     }
                 }
             }
-            if matches!(vr, Ok(Ok(()))) { Some(oc.tx) } else { None }
+            let verified = matches!(vr, Ok(Ok(())));
+            CaseResult { blinded: Some(oc.tx), verified, all_unblind }
+        }
+    }
+}
+
+// ------------------------------------------------------------------------------------------------
+// the surjection domain is a LIST: duplicates of every kind and position
+
+#[derive(Clone, Copy)]
+enum DupIn {
+    /// an ordinary explicit spent output of the reissued asset X
+    X,
+    /// an explicit spent output of another asset B
+    B,
+    /// spends B and reissues X (non-zero blinding nonce, the entropy of X, explicit amount)
+    BReissueX,
+    /// spends an explicit X output and reissues X itself
+    XReissueX,
+    /// an explicit spent output of the reissuance TOKEN of the new issuance made by `BNewWithKeys`
+    Token,
+    /// spends B and makes a new issuance with inflation keys
+    BNewWithKeys,
+}
+
+/// build the explicit transaction of one duplicate-domain shape; the ids come from `oracle_ids`
+fn dup_base(rng: &mut R, shape: &[DupIn]) -> Base {
+    let entropy = gen::arr32(rng);
+    let b = gen::asset_id(rng);
+    // X = the asset a reissuance with this entropy reissues
+    let x = {
+        let mut probe = plain_txin(rng);
+        probe.asset_issuance = AssetIssuance { asset_blinding_nonce: gen::tweak(rng), asset_entropy: entropy, amount: Value::Explicit(1), inflation_keys: Value::Null };
+        oracle_ids(&probe).0
+    };
+    // the inputs that issue are made first (the token id of a new issuance depends on its outpoint)
+    let mut inputs: Vec<TxIn> = shape.iter().map(|_| plain_txin(rng)).collect();
+    let mut token = None;
+    let mut checks: Vec<(&'static str, bool)> = vec![];
+    for (i, k) in shape.iter().enumerate() {
+        match k {
+            DupIn::BReissueX | DupIn::XReissueX => {
+                inputs[i].asset_issuance = AssetIssuance { asset_blinding_nonce: gen::tweak(rng), asset_entropy: entropy, amount: Value::Explicit(out_amount(rng).min(1 << 40)), inflation_keys: Value::Null };
+            }
+            DupIn::BNewWithKeys => {
+                inputs[i].asset_issuance = AssetIssuance { asset_blinding_nonce: ZERO_TWEAK, asset_entropy: gen::arr32(rng), amount: Value::Explicit(rng.gen_range(1..1_000_000)), inflation_keys: Value::Explicit(rng.gen_range(1..10)) };
+                token = Some(oracle_ids(&inputs[i]).1);
+            }
+            _ => {}
+        }
+    }
+    let mut utxos = vec![];
+    let mut spent = vec![];
+    let zero = (AssetBlindingFactor::zero(), ValueBlindingFactor::zero());
+    for (i, k) in shape.iter().enumerate() {
+        let a = match k { DupIn::X | DupIn::XReissueX => x, DupIn::Token => token.expect("shape has a new issuance"), _ => b };
+        let v = match rng.gen_range(0..4) { 0 => 1, 1 => rng.gen_range(1..1000), _ => rng.gen_range(1..(1u64 << 40)) };
+        utxos.push(TxOut { asset: Asset::Explicit(a), value: Value::Explicit(v), nonce: Nonce::Null, script_pubkey: addressable_script(rng), witness: TxOutWitness::default() });
+        spent.push(TxOutSecrets::new(a, zero.0, v, zero.1));
+        if inputs[i].has_issuance() {
+            let (aid, tid) = oracle_ids(&inputs[i]);
+            let real_ids = std::panic::catch_unwind(std::panic::AssertUnwindSafe(|| inputs[i].issuance_ids()));
+            checks.push(("issuance_ids_match_independent_derivation", matches!(real_ids, Ok(p) if p == (aid, tid))));
+            if matches!(k, DupIn::BReissueX | DupIn::XReissueX) {
+                checks.push(("reissuance_reissues_the_asset_of_its_entropy", aid == x));
+            }
+            if let Value::Explicit(am) = inputs[i].asset_issuance.amount { spent.push(TxOutSecrets::new(aid, zero.0, am, zero.1)); }
+            if let Value::Explicit(kk) = inputs[i].asset_issuance.inflation_keys { spent.push(TxOutSecrets::new(tid, zero.0, kk, zero.1)); }
+        }
+    }
+    // outputs: every asset's total split into 1-2 outputs, a fee from the first asset that can pay one
+    let mut totals: Vec<(AssetId, u128)> = vec![];
+    for s_ in &spent {
+        match totals.iter_mut().find(|t| t.0 == s_.asset) { Some(t) => t.1 += s_.value as u128, None => totals.push((s_.asset, s_.value as u128)) }
+    }
+    let mut outs: Vec<(AssetId, u64, bool)> = vec![];
+    let mut fee_done = false;
+    for (a, t) in totals {
+        let mut t = t;
+        if !fee_done && t >= 2 {
+            let fee = rng.gen_range(1..=(t - 1).min(500)) as u64;
+            outs.push((a, fee, true));
+            t -= fee as u128;
+            fee_done = true;
+        }
+        let k = if t >= 2 && rng.gen_bool(0.6) { 2 } else { 1 };
+        for p in split(rng, t, k) { outs.push((a, p, false)); }
+    }
+    for i in (1..outs.len()).rev() { let j = rng.gen_range(0..=i); outs.swap(i, j); }
+    let output: Vec<TxOut> = outs.iter().map(|(a, v, fee)| TxOut {
+        asset: Asset::Explicit(*a), value: Value::Explicit(*v), nonce: Nonce::Null,
+        script_pubkey: if *fee { Script::new() } else { addressable_script(rng) }, witness: TxOutWitness::default(),
+    }).collect();
+    Base { tx: Transaction { version: 2, lock_time: LockTime::ZERO, input: inputs, output }, utxos, spent, n_assets: 2, n_issuances: 1, n_conf_utxos: 0, tags: vec![], checks }
+}
+
+/// C04 on transactions whose surjection domain has the same generator more than once
+fn domain_duplicates(rng: &mut R, out: &mut Out, secp: &Secp256k1<All>, rounds: usize) {
+    use DupIn::*;
+    let shapes: Vec<(&str, Vec<DupIn>)> = vec![
+        ("two_explicit_inputs_adjacent", vec![X, X]),
+        ("two_explicit_inputs_apart", vec![X, B, X]),
+        ("three_explicit_inputs", vec![X, X, X]),
+        ("explicit_before_reissuance", vec![X, BReissueX]),
+        ("explicit_after_reissuance", vec![BReissueX, X]),
+        ("explicit_before_and_after_reissuance", vec![X, BReissueX, X]),
+        ("explicit_two_before_reissuance", vec![X, B, X, BReissueX]),
+        ("two_reissuances", vec![BReissueX, BReissueX]),
+        ("explicit_before_two_reissuances", vec![X, BReissueX, BReissueX]),
+        ("two_reissuances_around_explicit", vec![BReissueX, X, BReissueX]),
+        ("reissuing_input_spends_the_asset", vec![XReissueX]),
+        ("reissuing_input_spends_the_asset_then_explicit", vec![XReissueX, X]),
+        ("explicit_then_reissuing_input_spends_the_asset", vec![X, XReissueX]),
+        ("token_input_before_new_issuance_with_keys", vec![Token, BNewWithKeys]),
+        ("token_input_after_new_issuance_with_keys", vec![BNewWithKeys, Token]),
+        ("token_inputs_around_new_issuance_with_keys", vec![Token, BNewWithKeys, Token]),
+    ];
+    for round in 0..rounds {
+        for (name, shape) in &shapes {
+            let base = dup_base(rng, shape);
+            base_record(out, &base);
+            let mk = markable(&base.tx);
+            if mk.is_empty() { out.count("dup_domain.nothing_markable"); continue; }
+            // all outputs blinded / some explicit (a single one; a random proper subset)
+            let mut variants: Vec<(&str, Vec<usize>)> = vec![("all_blinded", mk.clone())];
+            if mk.len() > 1 {
+                let one = mk[(round + name.len()) % mk.len()];
+                variants.push(("one_blinded", vec![one]));
+                let sub: Vec<usize> = mk.iter().copied().filter(|i| (*i != one && rng.gen_bool(0.7)) || (*i == one && rng.gen_bool(0.4))).collect();
+                if !sub.is_empty() && sub.len() < mk.len() { variants.push(("some_explicit", sub)); }
+            }
+            for (vn, which) in variants {
+                out.count(&format!("dup_domain.{}.{}", name, vn));
+                let r = c04_case(rng, out, secp, &base, &which);
+                let det = || format!("shape {} marked {:?} {}", name, which, describe(&base.tx, &base.utxos, &base.spent));
+                out.s("dup_domain_blind_succeeds", r.blinded.is_some(), &det);
+                if let Some(tx) = &r.blinded {
+                    out.s("dup_domain_blinded_tx_verifies", r.verified, &det);
+                    out.s("dup_domain_receiver_unblinds", r.all_unblind, &det);
+                    // the verdict with the primitives evaluated by the harness on ITS reading of the domain (a
+                    // list, duplicates kept, ids from the independent derivation) against the model
+                    let v = super::c05::decide_case(out, secp, tx, &base.utxos);
+                    out.count(&format!("dup_domain.verdict.{}", v.split(' ').take(2).collect::<Vec<_>>().join("_")));
+                }
+            }
         }
     }
 }
@@ -1215,6 +1369,7 @@ pub fn run(rng: &mut R, out: &mut Out) {
     zero_last_case(rng, out, &secp);
     admissible_amounts(rng, out, &secp);
     token_only_issuance_cases(rng, out, &secp);
+    domain_duplicates(rng, out, &secp, if thorough { 12 } else { 1 });
     for _ in 0..(if thorough { 40 } else { 4 }) {
         manual_case(rng, out, &secp);
     }
